@@ -561,6 +561,20 @@ func main() {
 		wt.Flush()
 		wd.Flush()
 		ws.Flush()
+	case "gen-decl":
+		fs := flag.NewFlagSet("gen-decl", flag.ExitOnError)
+		seed := fs.Int64("seed", 1, "")
+		n := fs.Int("n", 1000, "")
+		out := fs.String("scen", "scen.ndjson", "")
+		fs.Parse(os.Args[2:])
+		r := rand.New(rand.NewSource(*seed))
+		f, _ := os.Create(*out)
+		w := bufio.NewWriter(f)
+		for i := 1; i <= *n; i++ {
+			w.Write(marshalLine(genDecl(r, i)))
+		}
+		w.Flush()
+		f.Close()
 	case "gen-closest":
 		fs := flag.NewFlagSet("gen-closest", flag.ExitOnError)
 		seed := fs.Int64("seed", 1, "")
